@@ -837,6 +837,67 @@ theorem keepRelative_axis_rel_untouched (e : Edit) (r : Spec.Ref) (h : relOnAxis
   cases hd : e.dir <;> cases r <;> simp only [relOnAxis, hd] at h <;>
     simp [Spec.shiftRef, Spec.shiftCol, Spec.shiftRow, Spec.slideRef, Spec.slideCol, Spec.slideRow, Spec.moves, hd, h]
 
+/-! ### `keepRelative`, the remaining case: one absolute and one relative corner on the edited axis -/
+
+/-- **keepRelative_mixed_corner_range** — a range with one `$` corner and one relative corner on the
+edited axis (`A$1:A5` / `A1:A$5` under a row edit, `$A1:C1` / `A1:$C1` under a column edit), every
+edit: exactly the `$` coordinate is relocated (deleted ⇒ no relocation), the relative corner and both
+coordinates of the other axis stay as they are. -/
+theorem keepRelative_mixed_corner_range (e : Edit) (c1 c2 : Spec.ColEnd) (r1 r2 : Spec.RowEnd) :
+    (e.dir = .rows → r1.abs = true → r2.abs = false →
+      Spec.shiftRef true e (.range c1 r1 c2 r2) =
+        (Spec.shiftIdx e.num e.off r1.n).map (fun n => .range c1 ⟨true, n⟩ c2 r2)) ∧
+    (e.dir = .rows → r1.abs = false → r2.abs = true →
+      Spec.shiftRef true e (.range c1 r1 c2 r2) =
+        (Spec.shiftIdx e.num e.off r2.n).map (fun n => .range c1 r1 c2 ⟨true, n⟩)) ∧
+    (e.dir = .cols → c1.abs = true → c2.abs = false →
+      Spec.shiftRef true e (.range c1 r1 c2 r2) =
+        (Spec.shiftIdx e.num e.off c1.n).map (fun n => .range ⟨true, n⟩ r1 c2 r2)) ∧
+    (e.dir = .cols → c1.abs = false → c2.abs = true →
+      Spec.shiftRef true e (.range c1 r1 c2 r2) =
+        (Spec.shiftIdx e.num e.off c2.n).map (fun n => .range c1 r1 ⟨true, n⟩ r2)) := by
+  obtain ⟨a1, m1⟩ := c1
+  obtain ⟨a2, m2⟩ := c2
+  obtain ⟨b1, n1⟩ := r1
+  obtain ⟨b2, n2⟩ := r2
+  refine ⟨?_, ?_, ?_, ?_⟩ <;> intro hd h1 h2 <;> simp only at h1 h2 <;> subst h1 <;> subst h2
+  · cases hs : Spec.shiftIdx e.num e.off n1 <;>
+      simp [Spec.shiftRef, Spec.shiftCol, Spec.shiftRow, Spec.moves, hd, hs]
+  · cases hs : Spec.shiftIdx e.num e.off n2 <;>
+      simp [Spec.shiftRef, Spec.shiftCol, Spec.shiftRow, Spec.moves, hd, hs]
+  · cases hs : Spec.shiftIdx e.num e.off m1 <;>
+      simp [Spec.shiftRef, Spec.shiftCol, Spec.shiftRow, Spec.moves, hd, hs]
+  · cases hs : Spec.shiftIdx e.num e.off m2 <;>
+      simp [Spec.shiftRef, Spec.shiftCol, Spec.shiftRow, Spec.moves, hd, hs]
+
+/-- **mixed_corner_range_rewrite** — … and that is the text the code writes (`Impl.adjustCell` with
+`keepRelative = true`, the defined-name path): for `A$a:Bb` under a row edit that relocates row `a`
+to `a'`, the operand becomes `A$a':Bb`. Instance of `operand_rewrite_correct`. -/
+theorem mixed_corner_range_rewrite (e : Edit) (c1 c2 : Spec.ColEnd) (r2 : Spec.RowEnd) (a a' : Nat) (op0 : Str)
+    (hd : e.dir = .rows) (h2 : r2.abs = false)
+    (hg : Spec.inGrid (.range c1 ⟨true, a⟩ c2 r2))
+    (hs : Spec.shiftIdx e.num e.off a = some a') (ha' : Spec.rowOk ⟨true, a'⟩) :
+    Impl.adjustCell true e op0 (Spec.render (.range c1 ⟨true, a⟩ c2 r2)) =
+      .ok (op0 ++ Spec.render (.range c1 ⟨true, a'⟩ c2 r2)) := by
+  apply operand_rewrite_correct true e _ _ op0 hg
+  · rw [(keepRelative_mixed_corner_range e c1 c2 ⟨true, a⟩ r2).1 hd rfl h2, hs]; rfl
+  · exact ⟨hg.1, ha', hg.2.2.1, hg.2.2.2⟩
+
+/-- **keepRelative_mixed_corner_not_same_cells** — why `denote_shift_defined_name_mixed` needs
+`absOnAxis`: without it the statement is false. `A$1:A5` in a defined name, one row inserted at 3: the
+text stays `A$1:A5` (row 1 is before the insertion, row 5 is relative), the cell `A5` it denoted is now
+`A6`, which it does not denote. Excel's defined names behave the same way (the relative corner is
+relative to the cell using the name). -/
+theorem keepRelative_mixed_corner_not_same_cells :
+    ¬ ∀ (e : Edit) (r r' : Spec.Ref) (p p' : Nat × Nat), 0 ≤ e.num →
+        Spec.shiftRef true e r = some r' → Spec.shiftPos e p = some p' → posOk p → posOk p' →
+        (Spec.denote r' p' ↔ Spec.denote r p) := by
+  intro h
+  have h' := h ⟨.rows, 3, 1⟩ (.range ⟨false, 1⟩ ⟨true, 1⟩ ⟨false, 1⟩ ⟨false, 5⟩)
+    (.range ⟨false, 1⟩ ⟨true, 1⟩ ⟨false, 1⟩ ⟨false, 5⟩) (1, 5) (1, 6) (by decide)
+    (by decide +kernel) (by decide +kernel) (by unfold posOk; decide +kernel) (by unfold posOk; decide +kernel)
+  simp [Spec.denote] at h'
+
 /-! ## "Evaluates to the same result": the rewrite joined with C08's evaluator -/
 
 /-- **eval_invariant_under_shift** (DESIGN §4/C07) — for C08's reference evaluator `Calc.Spec.eval`
